@@ -193,6 +193,16 @@ func errText(r interface{ Intn(int) int }, s func() string) error {
 	return nil
 }
 
+// errTextOrEmpty is errText for the operations whose reply is a bare status text (add-hardware-certificate, wait): there
+// a failure whose text is empty still travels (as an empty reply, which is not "SUCCESS"), and is a failure.
+func errTextOrEmpty(r interface{ Intn(int) int }, s func() string) error {
+	e := errText(r, s)
+	if e != nil && r.Intn(6) == 0 {
+		return errors.New("")
+	}
+	return e
+}
+
 func trunc16(b []byte) []byte {
 	if len(b) > 16 {
 		return b[:16]
@@ -717,7 +727,7 @@ func sequence(r *ev.Run, c *ev.Case, seqNo int) {
 				pk = k.Pub
 			}
 			comment := gen.Str(rng, 20)
-			srv.err = errText(rng, text)
+			srv.err = errTextOrEmpty(rng, text)
 			legacy := rng.Intn(2) == 0
 			trace = append(trace, map[bool]string{true: "add-hard-cert-legacy", false: "add-hard-cert"}[legacy])
 			var err error
@@ -822,7 +832,7 @@ func sequence(r *ev.Run, c *ev.Case, seqNo int) {
 			ok(op, fmt.Sprint(slot, srv.err != nil))
 		case 14: // wait
 			code := byte(rng.Intn(256))
-			srv.err = errText(rng, text)
+			srv.err = errTextOrEmpty(rng, text)
 			trace = append(trace, "wait")
 			err := cl.Wait(code)
 			cs := expectCalls("wait", 1)
